@@ -80,6 +80,9 @@ type wside struct {
 	known  []wrec
 	term   string // "", "FRest", "FTlvRest" : plain terminal extension field
 	extFld string
+	excl   [][2][]uint64 // Decode rejects records of group [0] together with records of group [1]
+	optAt  int           // >= 0: the fields from this index on form an optional tail
+	optFld string        // Encode: the field whose nil-ness decides whether the tail is written
 }
 
 type unsup struct{ msg string }
@@ -243,6 +246,11 @@ func (g *wgen) structField(structName, field string) (ast.Expr, bool) {
 				return f.Type, true
 			}
 		}
+		if len(f.Names) == 0 { // embedded struct, named by its type
+			if id, ok := f.Type.(*ast.Ident); ok && id.Name == field {
+				return f.Type, true
+			}
+		}
 	}
 	return nil, false
 }
@@ -306,6 +314,10 @@ func (g *wgen) codecOfType(n ast.Node, t ast.Expr, name string) ([]wfield, error
 		return one(fmt.Sprintf("FVar16Max %d", m))
 	case "[]Sig":
 		return one("FArr16 64")
+	case "NodeAlias":
+		return one("FAlias")
+	case "[]net.Addr":
+		return one("FAddrs")
 	case "wire.OutPoint":
 		return []wfield{{name + ".Hash", "FBytes 32"}, {name + ".Index", "FU 2"}}, nil
 	case "color.RGBA":
@@ -329,6 +341,7 @@ var decoderKinds = map[string]string{
 	"feeDecoder":                     "RKFixed 8",
 	"leaseExpiryDecoder":             "RKFixed 4",
 	"tlv.DVarBytes":                  "RKVar",
+	"decodeLocalNoncesData":          "RKNonceMap",
 }
 
 var decoderSizes = map[string]uint64{
@@ -413,7 +426,54 @@ func (g *wgen) recordOfNamed(n ast.Node, name string) (uint64, bool, string, err
 		}
 		return typ, tok, rk, nil
 	}
+	if fn == "tlv.MakePrimitiveRecord" && len(call.Args) == 2 {
+		rk, err := g.primitiveKind(call, name, fd, call.Args[1])
+		if err != nil {
+			return 0, false, "", err
+		}
+		return typ, tok, rk, nil
+	}
 	return 0, false, "", g.bad(call, "%s.Record(): unsupported constructor %s", name, fn)
+}
+
+// codec chosen by tlv.MakePrimitiveRecord from the Go type of its value pointer:
+// (*uintN)(x) | &recv.field with field of type uintN / [N]byte / []byte / *btcec.PublicKey
+func (g *wgen) primitiveKind(n ast.Node, name string, fd *ast.FuncDecl, v ast.Expr) (string, error) {
+	var t ast.Expr
+	if c, ok := v.(*ast.CallExpr); ok && len(c.Args) == 1 {
+		if p, ok := c.Fun.(*ast.ParenExpr); ok {
+			if st, ok := p.X.(*ast.StarExpr); ok {
+				t = st.X
+			}
+		}
+	}
+	if u, ok := v.(*ast.UnaryExpr); ok && u.Op == token.AND && len(fd.Recv.List[0].Names) == 1 {
+		if f, ok := recvField(u.X, fd.Recv.List[0].Names[0].Name); ok {
+			t, _ = g.structField(name, f)
+		}
+	}
+	if t == nil {
+		return "", g.bad(n, "%s.Record(): cannot type the primitive value %s", name, g.src(v))
+	}
+	switch ts := g.src(t); ts {
+	case "uint8":
+		return "RKFixed 1", nil
+	case "uint16":
+		return "RKFixed 2", nil
+	case "uint32":
+		return "RKFixed 4", nil
+	case "uint64":
+		return "RKFixed 8", nil
+	case "[]byte":
+		return "RKVar", nil
+	case "*btcec.PublicKey":
+		return "RKPoint", nil
+	default:
+		if l, ok := g.arrayLen(t); ok && (l == 32 || l == 33 || l == 64) {
+			return fmt.Sprintf("RKFixed %d", l), nil
+		}
+		return "", g.bad(n, "%s.Record(): primitive record of Go type %s is not in the translator's table", name, ts)
+	}
 }
 
 func (g *wgen) rkOfValue(n ast.Node, v ast.Expr) (string, error) {
@@ -452,6 +512,9 @@ func (g *wgen) recordOfType(n ast.Node, t ast.Expr) (uint64, string, error) {
 			return typ, rk, err
 		}
 		return 0, "", g.bad(n, "unsupported generic record type %s", g.src(t))
+	}
+	if ix, ok := t.(*ast.IndexExpr); ok && g.src(ix.X) == "fn.Option" {
+		return g.recordOfType(n, ix.Index)
 	}
 	if id, ok := t.(*ast.Ident); ok {
 		typ, tok, rk, err := g.recordOfNamed(n, id.Name)
@@ -637,6 +700,267 @@ type decState struct {
 	zeroTy  map[string]ast.Expr // local var = tlv.ZeroRecordT[A,B]() -> RecordT type expr
 	extVar  string              // local ExtraOpaqueData variable
 	extRead bool
+	optBuf  string // local array the first optional-tail field was read into
+	optLen  uint64
+}
+
+// `buf[:]` / `buf[:N]` of a local `var buf [N]byte` -> (N, "buf")
+func (d *decState) localArraySlice(e ast.Expr) (uint64, string, error) {
+	g := d.g
+	sl, ok := e.(*ast.SliceExpr)
+	if !ok || sl.Low != nil {
+		return 0, "", g.bad(e, "unsupported buffer expression %s", g.src(e))
+	}
+	id, ok := sl.X.(*ast.Ident)
+	if !ok {
+		return 0, "", g.bad(e, "unsupported buffer expression %s", g.src(e))
+	}
+	t, ok := d.locals[id.Name]
+	if !ok {
+		return 0, "", g.bad(e, "unknown local buffer %s", id.Name)
+	}
+	n, ok := g.arrayLen(t)
+	if !ok {
+		return 0, "", g.bad(e, "local %s is not a byte array", id.Name)
+	}
+	if sl.High != nil {
+		h, ok := g.evalConst(sl.High, 0, 0)
+		if !ok || h != n {
+			return 0, "", g.bad(e, "buffer slice %s does not cover the whole array", g.src(e))
+		}
+	}
+	return n, id.Name, nil
+}
+
+// if err == io.EOF { recv.F = ...; return nil } else if err != nil { return err }
+func isEOFSplit(g *wgen, st ast.Stmt, recv string) bool {
+	is, ok := st.(*ast.IfStmt)
+	if !ok || is.Init != nil || g.src(is.Cond) != "err == io.EOF" || is.Else == nil {
+		return false
+	}
+	for j, b := range is.Body.List {
+		if j == len(is.Body.List)-1 {
+			r, ok := b.(*ast.ReturnStmt)
+			if !ok || len(r.Results) != 1 || g.src(r.Results[0]) != "nil" {
+				return false
+			}
+			continue
+		}
+		a, ok := b.(*ast.AssignStmt)
+		if !ok || len(a.Lhs) != 1 {
+			return false
+		}
+		if _, ok := recvField(a.Lhs[0], recv); !ok {
+			return false
+		}
+	}
+	el, ok := is.Else.(*ast.IfStmt)
+	return ok && isErrCheck(el)
+}
+
+// helperEnv resolves the parameters of a package-level helper that is called
+// with `&recv.Embedded` / `&recv.Field` / `recv.Field` / the extension data:
+// param -> struct type name, or param -> the (record) type of the field itself.
+type helperEnv struct {
+	structOf map[string]string   // param of type *T (T a struct of lnwire)
+	typeOf   map[string]ast.Expr // param that is itself a record-typed field
+	ext      string              // param bound to the extension data
+}
+
+func (g *wgen) bindHelper(n ast.Node, call *ast.CallExpr, hf *ast.FuncDecl, recv, sname, extVar string) (*helperEnv, error) {
+	env := &helperEnv{structOf: map[string]string{}, typeOf: map[string]ast.Expr{}}
+	var params []*ast.Field
+	for _, f := range hf.Type.Params.List {
+		for range f.Names {
+			params = append(params, f)
+		}
+	}
+	var names []string
+	for _, f := range hf.Type.Params.List {
+		for _, nm := range f.Names {
+			names = append(names, nm.Name)
+		}
+	}
+	if len(params) != len(call.Args) {
+		return nil, g.bad(n, "helper %s: %d parameters, %d arguments", hf.Name.Name, len(params), len(call.Args))
+	}
+	for i, a := range call.Args {
+		pt := params[i].Type
+		if id, ok := a.(*ast.Ident); ok {
+			if extVar == "" || id.Name != extVar || g.src(pt) != "ExtraOpaqueData" {
+				return nil, g.bad(n, "helper %s: unsupported argument %s", hf.Name.Name, g.src(a))
+			}
+			env.ext = names[i]
+			continue
+		}
+		f, ok := recvField(a, recv)
+		if !ok {
+			return nil, g.bad(n, "helper %s: unsupported argument %s", hf.Name.Name, g.src(a))
+		}
+		ft, ok := g.structField(sname, f)
+		if !ok {
+			return nil, g.bad(n, "helper %s: unknown field %s.%s", hf.Name.Name, sname, f)
+		}
+		if st, ok := pt.(*ast.StarExpr); ok {
+			pt = st.X
+		}
+		if g.src(pt) != g.src(ft) {
+			return nil, g.bad(n, "helper %s: parameter %s has type %s, argument field %s has type %s",
+				hf.Name.Name, names[i], g.src(pt), f, g.src(ft))
+		}
+		if id, ok := pt.(*ast.Ident); ok {
+			if ts, ok := g.types[id.Name]; ok {
+				if _, ok := ts.Type.(*ast.StructType); ok {
+					env.structOf[names[i]] = id.Name
+					continue
+				}
+			}
+		}
+		env.typeOf[names[i]] = pt
+	}
+	return env, nil
+}
+
+// type of `p.F` / `p` in a helper body
+func (g *wgen) helperFieldType(n ast.Node, env *helperEnv, e ast.Expr) (ast.Expr, string, error) {
+	if id, ok := e.(*ast.Ident); ok {
+		if t, ok := env.typeOf[id.Name]; ok {
+			return t, id.Name, nil
+		}
+	}
+	if sel, ok := e.(*ast.SelectorExpr); ok {
+		if id, ok := sel.X.(*ast.Ident); ok {
+			if sn, ok := env.structOf[id.Name]; ok {
+				if t, ok := g.structField(sn, sel.Sel.Name); ok {
+					return t, sn + "." + sel.Sel.Name, nil
+				}
+			}
+		}
+	}
+	return nil, "", g.bad(n, "cannot resolve %s in helper", g.src(e))
+}
+
+// X.IsSome() || Y.IsSome() || ...  -> the record types of X, Y, ...
+func (g *wgen) isSomeGroup(n ast.Node, env *helperEnv, e ast.Expr) ([]uint64, error) {
+	if be, ok := e.(*ast.BinaryExpr); ok && be.Op == token.LOR {
+		a, err := g.isSomeGroup(n, env, be.X)
+		if err != nil {
+			return nil, err
+		}
+		b, err := g.isSomeGroup(n, env, be.Y)
+		if err != nil {
+			return nil, err
+		}
+		return append(a, b...), nil
+	}
+	c, ok := e.(*ast.CallExpr)
+	if !ok || len(c.Args) != 0 {
+		return nil, g.bad(n, "unsupported presence test %s", g.src(e))
+	}
+	sel, ok := c.Fun.(*ast.SelectorExpr)
+	if !ok || sel.Sel.Name != "IsSome" {
+		return nil, g.bad(n, "unsupported presence test %s", g.src(e))
+	}
+	t, _, err := g.helperFieldType(n, env, sel.X)
+	if err != nil {
+		return nil, err
+	}
+	typ, _, err := g.recordOfType(n, t)
+	if err != nil {
+		return nil, err
+	}
+	return []uint64{typ}, nil
+}
+
+// Decode-side helper `func h(c *A, tc *B, ..., tlvRecords ExtraOpaqueData) error`:
+// x := c.F.Zero(); typeMap, err := tlvRecords.ExtractRecords(&x, ...); the
+// assignments of the parsed records; hasA := c.F.IsSome() || ...;
+// if hasA && hasB { return error }
+func (d *decState) inlineHelper(n ast.Node, call *ast.CallExpr, hf *ast.FuncDecl) error {
+	g := d.g
+	env, err := g.bindHelper(n, call, hf, d.recv, d.sname, d.extVar)
+	if err != nil {
+		return err
+	}
+	if env.ext == "" {
+		return g.bad(n, "helper %s does not receive the extension data", hf.Name.Name)
+	}
+	zero := map[string]ast.Expr{}
+	groups := map[string][]uint64{}
+	for _, st := range hf.Body.List {
+		if isErrCheck(st) {
+			continue
+		}
+		if r, ok := st.(*ast.ReturnStmt); ok && len(r.Results) == 1 && g.src(r.Results[0]) == "nil" {
+			continue
+		}
+		if as, ok := st.(*ast.AssignStmt); ok && as.Tok == token.DEFINE && len(as.Lhs) == 1 && len(as.Rhs) == 1 {
+			id, _ := as.Lhs[0].(*ast.Ident)
+			if c, ok := as.Rhs[0].(*ast.CallExpr); ok && id != nil && len(c.Args) == 0 {
+				if sel, ok := c.Fun.(*ast.SelectorExpr); ok && sel.Sel.Name == "Zero" {
+					t, _, err := g.helperFieldType(st, env, sel.X)
+					if err != nil {
+						return err
+					}
+					zero[id.Name] = t
+					continue
+				}
+			}
+			if id != nil {
+				if grp, err := g.isSomeGroup(st, env, as.Rhs[0]); err == nil {
+					groups[id.Name] = grp
+					continue
+				}
+			}
+		}
+		if is, ok := st.(*ast.IfStmt); ok && is.Else == nil {
+			cond := g.src(is.Cond)
+			if is.Init != nil && cond == "ok && val == nil" {
+				continue // if val, ok := typeMap[...]; ok && val == nil { field = Some(x) }
+			}
+			if be, ok := is.Cond.(*ast.BinaryExpr); ok && is.Init == nil && be.Op == token.LAND &&
+				len(is.Body.List) == 1 {
+				a, ok1 := be.X.(*ast.Ident)
+				b, ok2 := be.Y.(*ast.Ident)
+				_, isRet := is.Body.List[0].(*ast.ReturnStmt)
+				if ok1 && ok2 && isRet && groups[a.Name] != nil && groups[b.Name] != nil {
+					d.side.excl = append(d.side.excl, [2][]uint64{groups[a.Name], groups[b.Name]})
+					continue
+				}
+			}
+		}
+		if c := stmtCall(st); c != nil && callName(c) == "ExtractRecords" {
+			sel, ok := c.Fun.(*ast.SelectorExpr)
+			if !ok || g.src(sel.X) != env.ext {
+				return g.bad(st, "ExtractRecords not applied to the extension data")
+			}
+			if d.side.tlv {
+				return g.bad(st, "extension parsed twice")
+			}
+			d.side.tlv, d.side.mode = true, "Repack"
+			for _, a := range c.Args {
+				u, ok := a.(*ast.UnaryExpr)
+				if !ok || u.Op != token.AND {
+					return g.bad(a, "unsupported record argument %s", g.src(a))
+				}
+				id, ok := u.X.(*ast.Ident)
+				if !ok || zero[id.Name] == nil {
+					return g.bad(a, "cannot resolve record variable %s", g.src(u.X))
+				}
+				typ, rk, err := g.recordOfType(a, zero[id.Name])
+				if err != nil {
+					return err
+				}
+				d.side.known = append(d.side.known, wrec{typ: typ, rk: rk, field: id.Name})
+			}
+			continue
+		}
+		return g.bad(st, "unsupported statement in helper %s: %s", hf.Name.Name, g.src(st))
+	}
+	if !d.side.tlv {
+		return g.bad(n, "helper %s does not parse the extension data", hf.Name.Name)
+	}
+	return nil
 }
 
 func (d *decState) readArgs(n ast.Node, args []ast.Expr, into *[]wfield) error {
@@ -821,9 +1145,15 @@ func (g *wgen) analyseDecode(sname string, fd *ast.FuncDecl) (*wside, error) {
 	if len(fd.Recv.List[0].Names) != 1 {
 		return nil, g.bad(fd, "receiver without a name")
 	}
-	d := &decState{g: g, recv: fd.Recv.List[0].Names[0].Name, sname: sname, side: &wside{},
+	d := &decState{g: g, recv: fd.Recv.List[0].Names[0].Name, sname: sname, side: &wside{optAt: -1},
 		locals: map[string]ast.Expr{}, zeroOf: map[string]string{}, zeroTy: map[string]ast.Expr{}}
-	for _, st := range fd.Body.List {
+	body := fd.Body.List
+	skip := 0
+	for i, st := range body {
+		if skip > 0 {
+			skip--
+			continue
+		}
 		if isErrCheck(st) || d.ignorable(st) {
 			continue
 		}
@@ -938,9 +1268,88 @@ func (g *wgen) analyseDecode(sname string, fd *ast.FuncDecl) (*wside, error) {
 				}
 				d.side.known = append(d.side.known, r)
 			}
+		case "ReadVarInt":
+			// x, err := tlv.ReadVarInt(r, &buf); ...; recv.F = x
+			as, isAs := st.(*ast.AssignStmt)
+			if g.src(call.Fun) != "tlv.ReadVarInt" || !isAs || len(as.Lhs) != 2 || d.extRead || d.side.cond != nil {
+				return nil, g.bad(st, "unsupported call in Decode: %s", g.src(call.Fun))
+			}
+			x := g.src(as.Lhs[0])
+			fld := ""
+			for _, nx := range body[i+1:] {
+				if a2, ok := nx.(*ast.AssignStmt); ok && len(a2.Lhs) == 1 && len(a2.Rhs) == 1 && g.src(a2.Rhs[0]) == x {
+					if f, ok := recvField(a2.Lhs[0], d.recv); ok {
+						fld = f
+					}
+					break
+				}
+				if !isErrCheck(nx) {
+					break
+				}
+			}
+			ft, _ := g.structField(sname, fld)
+			if fld == "" || ft == nil || g.src(ft) != "uint64" {
+				return nil, g.bad(st, "result of tlv.ReadVarInt is not stored in a uint64 field right away")
+			}
+			d.side.flds = append(d.side.flds, wfield{fld, "FBigSize"})
+		case "ReadFull":
+			// _, err = io.ReadFull(r, buf[:N])   (first field of an optional tail)
+			if g.src(call.Fun) != "io.ReadFull" || len(call.Args) != 2 || i+1 >= len(body) {
+				return nil, g.bad(st, "unsupported call in Decode: %s", g.src(call.Fun))
+			}
+			n, buf, err := d.localArraySlice(call.Args[1])
+			if err != nil {
+				return nil, err
+			}
+			if !isEOFSplit(g, body[i+1], d.recv) {
+				return nil, g.bad(body[i+1], "io.ReadFull not followed by `if err == io.EOF { ...; return nil } else if err != nil { return err }`")
+			}
+			if d.side.optAt >= 0 || d.side.cond != nil || d.extRead {
+				return nil, g.bad(st, "second optional tail / optional tail after conditional part")
+			}
+			d.side.optAt = len(d.side.flds)
+			d.optBuf, d.optLen = buf, n
+			skip = 1
+		case "copy":
+			// copy(recv.F[:], buf[:])
+			if d.optBuf == "" || len(call.Args) != 2 {
+				return nil, g.bad(st, "unsupported call in Decode: copy")
+			}
+			dst, ok1 := call.Args[0].(*ast.SliceExpr)
+			_, buf, err := d.localArraySlice(call.Args[1])
+			if !ok1 || err != nil || buf != d.optBuf || dst.Low != nil || dst.High != nil {
+				return nil, g.bad(st, "unsupported copy in Decode: %s", g.src(st))
+			}
+			f, ok := recvField(dst.X, d.recv)
+			if !ok {
+				return nil, g.bad(st, "unsupported copy target %s", g.src(dst.X))
+			}
+			ft, _ := g.structField(sname, f)
+			if ft == nil {
+				return nil, g.bad(st, "unknown field %s.%s", sname, f)
+			}
+			if n, ok := g.arrayLen(ft); !ok || n != d.optLen {
+				return nil, g.bad(st, "copy of %d bytes into field %s of another size", d.optLen, f)
+			}
+			if len(d.side.flds) != d.side.optAt {
+				return nil, g.bad(st, "copy of the optional-tail buffer is not the first tail field")
+			}
+			d.side.flds = append(d.side.flds, wfield{f, fmt.Sprintf("FBytes %d", d.optLen)})
+			d.optBuf = ""
 		default:
+			if hf, ok := g.funcs[callName(call)]; ok && d.extVar != "" {
+				if _, isId := call.Fun.(*ast.Ident); isId {
+					if err := d.inlineHelper(st, call, hf); err != nil {
+						return nil, err
+					}
+					continue
+				}
+			}
 			return nil, g.bad(st, "unsupported call in Decode: %s", g.src(call.Fun))
 		}
+	}
+	if d.optBuf != "" {
+		return nil, g.bad(fd, "optional-tail buffer %s is never copied into a field", d.optBuf)
 	}
 	if d.extVar != "" && !d.side.tlv {
 		// local ExtraOpaqueData copied into the struct without parsing
@@ -976,6 +1385,7 @@ var writeCodecs = map[string]string{
 	"WritePublicKey": "FPoint", "WriteBool": "FBool", "WriteRawFeatureVector": "FFeat",
 	"WritePingPayload": "FVar16", "WritePongPayload": "FVar16", "WriteWarningData": "FVar16",
 	"WriteErrorData": "FVar16", "WriteOpaqueReason": "FVar16", "WriteSigs": "FArr16 64",
+	"WriteNodeAlias": "FAlias", "WriteNetAddrs": "FAddrs",
 }
 
 type encState struct {
@@ -1115,6 +1525,58 @@ func (e *encState) producer(n ast.Node, x ast.Expr, always bool) error {
 	return nil
 }
 
+// Encode-side helper `func h(c *A, tc *B, f T) []tlv.RecordProducer`:
+// ps := make([]tlv.RecordProducer, 0, n); X.WhenSome(func(v T) { ps = append(ps, &v) }) ...; return ps
+func (e *encState) inlineProducers(n ast.Node, call *ast.CallExpr, hf *ast.FuncDecl) error {
+	g := e.g
+	env, err := g.bindHelper(n, call, hf, e.recv, e.sname, "")
+	if err != nil {
+		return err
+	}
+	pv := ""
+	for _, st := range hf.Body.List {
+		if as, ok := st.(*ast.AssignStmt); ok && as.Tok == token.DEFINE && len(as.Lhs) == 1 {
+			id, _ := as.Lhs[0].(*ast.Ident)
+			if c, ok := as.Rhs[0].(*ast.CallExpr); ok && id != nil && callName(c) == "make" &&
+				g.src(c.Args[0]) == "[]tlv.RecordProducer" && pv == "" {
+				pv = id.Name
+				continue
+			}
+		}
+		if r, ok := st.(*ast.ReturnStmt); ok && len(r.Results) == 1 && g.src(r.Results[0]) == pv && pv != "" {
+			continue
+		}
+		c := stmtCall(st)
+		if _, isExpr := st.(*ast.ExprStmt); isExpr && c != nil && callName(c) == "WhenSome" && len(c.Args) == 1 {
+			sel := c.Fun.(*ast.SelectorExpr)
+			fl, ok := c.Args[0].(*ast.FuncLit)
+			if !ok || len(fl.Body.List) != 1 || len(fl.Type.Params.List) != 1 ||
+				len(fl.Type.Params.List[0].Names) != 1 {
+				return g.bad(st, "unsupported WhenSome callback in helper %s", hf.Name.Name)
+			}
+			save := e.prodVar
+			e.prodVar = pv
+			x, ok := e.appendStmt(fl.Body.List[0])
+			e.prodVar = save
+			if !ok || g.src(x) != "&"+fl.Type.Params.List[0].Names[0].Name {
+				return g.bad(st, "WhenSome callback in helper %s is not an append of its parameter", hf.Name.Name)
+			}
+			t, nm, err := g.helperFieldType(st, env, sel.X)
+			if err != nil {
+				return err
+			}
+			typ, rk, err := g.recordOfType(st, t)
+			if err != nil {
+				return err
+			}
+			e.side.known = append(e.side.known, wrec{typ: typ, rk: rk, field: nm})
+			continue
+		}
+		return g.bad(st, "unsupported statement in helper %s: %s", hf.Name.Name, g.src(st))
+	}
+	return nil
+}
+
 // recordProducers = append(recordProducers, X)
 func (e *encState) appendStmt(st ast.Stmt) (ast.Expr, bool) {
 	as, ok := st.(*ast.AssignStmt)
@@ -1136,7 +1598,7 @@ func (g *wgen) analyseEncode(sname string, fd *ast.FuncDecl) (*wside, error) {
 	if len(fd.Recv.List[0].Names) != 1 {
 		return nil, g.bad(fd, "receiver without a name")
 	}
-	e := &encState{g: g, recv: fd.Recv.List[0].Names[0].Name, sname: sname, side: &wside{}}
+	e := &encState{g: g, recv: fd.Recv.List[0].Names[0].Name, sname: sname, side: &wside{optAt: -1}}
 	for _, st := range fd.Body.List {
 		if isErrCheck(st) {
 			continue
@@ -1145,6 +1607,20 @@ func (g *wgen) analyseEncode(sname string, fd *ast.FuncDecl) (*wside, error) {
 		// var x []tlv.RecordProducer
 		if as, ok := st.(*ast.AssignStmt); ok && as.Tok == token.DEFINE && len(as.Lhs) == 1 {
 			id, _ := as.Lhs[0].(*ast.Ident)
+			// producers := helper(&c.A, &c.B, c.F)
+			if c, ok := as.Rhs[0].(*ast.CallExpr); ok && id != nil {
+				if fid, ok := c.Fun.(*ast.Ident); ok {
+					if hf, ok := g.funcs[fid.Name]; ok && hf.Type.Results != nil &&
+						len(hf.Type.Results.List) == 1 &&
+						g.src(hf.Type.Results.List[0].Type) == "[]tlv.RecordProducer" {
+						if err := e.inlineProducers(st, c, hf); err != nil {
+							return nil, err
+						}
+						e.prodVar = id.Name
+						continue
+					}
+				}
+			}
 			if c, ok := as.Rhs[0].(*ast.CallExpr); ok && id != nil && callName(c) == "make" &&
 				g.src(c.Args[0]) == "[]tlv.RecordProducer" {
 				e.prodVar = id.Name
@@ -1171,10 +1647,30 @@ func (g *wgen) analyseEncode(sname string, fd *ast.FuncDecl) (*wside, error) {
 					continue
 				}
 			}
+			if gd.Tok == token.VAR && g.src(st) == "var buf [8]byte" {
+				continue // scratch buffer of tlv.WriteVarInt
+			}
 			return nil, g.bad(st, "unsupported declaration in Encode: %s", g.src(st))
 		}
 		// if c.F != nil { producers = append(producers, c.F) }   |   if c.F.HasX() { WriteY }
 		if is, ok := st.(*ast.IfStmt); ok && is.Init == nil && is.Else == nil {
+			// if c.X == nil { return WriteBytes(w, c.ExtraData) }: the rest is an optional tail
+			if be, ok := is.Cond.(*ast.BinaryExpr); ok && be.Op == token.EQL && g.src(be.Y) == "nil" &&
+				len(is.Body.List) == 1 {
+				f, ok := recvField(be.X, e.recv)
+				rc := stmtCall(is.Body.List[0])
+				_, isRet := is.Body.List[0].(*ast.ReturnStmt)
+				if ok && isRet && rc != nil && callName(rc) == "WriteBytes" && len(rc.Args) == 2 {
+					xf, ok2 := recvField(rc.Args[1], e.recv)
+					xt, _ := g.structField(sname, xf)
+					if ok2 && xt != nil && g.src(xt) == "ExtraOpaqueData" && e.side.optAt < 0 &&
+						e.side.cond == nil && !e.done {
+						e.side.optAt, e.side.optFld = len(e.side.flds), f
+						continue
+					}
+				}
+				return nil, g.bad(st, "unsupported nil test in Encode: %s", g.src(is.Cond))
+			}
 			if be, ok := is.Cond.(*ast.BinaryExpr); ok && be.Op == token.NEQ && g.src(be.Y) == "nil" &&
 				len(is.Body.List) == 1 {
 				if x, ok := e.appendStmt(is.Body.List[0]); ok {
@@ -1271,6 +1767,13 @@ func (g *wgen) analyseEncode(sname string, fd *ast.FuncDecl) (*wside, error) {
 			}
 			e.mergeVar = g.src(as.Lhs[0])
 			e.side.tlv, e.side.mode, e.side.extFld = true, "Merge", f1
+		case g.src(call.Fun) == "tlv.WriteVarInt" && len(call.Args) == 3:
+			f, ok := recvField(call.Args[1], e.recv)
+			ft, _ := g.structField(sname, f)
+			if !ok || ft == nil || g.src(ft) != "uint64" || e.done || e.side.cond != nil {
+				return nil, g.bad(st, "unsupported tlv.WriteVarInt argument %s", g.src(call.Args[1]))
+			}
+			e.side.flds = append(e.side.flds, wfield{f, "FBigSize"})
 		case strings.HasPrefix(name, "Write"):
 			into := &e.side.flds
 			if e.side.cond != nil {
@@ -1315,14 +1818,38 @@ func coqKnown(ks []wrec) string {
 	return "[" + strings.Join(out, "; ") + "]"
 }
 
+func coqNs(ns []uint64) string {
+	out := make([]string, len(ns))
+	for i, n := range ns {
+		out[i] = strconv.FormatUint(n, 10)
+	}
+	return "[" + strings.Join(out, "; ") + "]"
+}
+
+func coqExcl(x [][2][]uint64) string {
+	var out []string
+	for _, ab := range x {
+		out = append(out, fmt.Sprintf("(%s, %s)", coqNs(ab[0]), coqNs(ab[1])))
+	}
+	return "[" + strings.Join(out, "; ") + "]"
+}
+
 func coqMsg(s *wside, term string) string {
 	cond := "None"
 	if s.cond != nil {
 		cond = fmt.Sprintf("Some (%d%%nat, %d, %s)", s.cond.idx, s.cond.mask, coqLayout(s.cond.flds))
 	}
 	_ = term
-	return fmt.Sprintf("{| tm_pre := %s; tm_cond := %s; tm_known := %s; tm_mode := %s |}",
-		coqLayout(s.flds), cond, coqKnown(s.known), s.mode)
+	flds := s.flds
+	if s.optAt >= 0 {
+		flds = s.flds[s.optAt:]
+	}
+	tm := fmt.Sprintf("{| tm_pre := %s; tm_cond := %s; tm_known := %s; tm_mode := %s; tm_excl := %s |}",
+		coqLayout(flds), cond, coqKnown(s.known), s.mode, coqExcl(s.excl))
+	if s.optAt >= 0 {
+		return fmt.Sprintf("{| om_pre := %s; om_tail := %s |}", coqLayout(s.flds[:s.optAt]), tm)
+	}
+	return tm
 }
 
 func coqString(s string) string {
@@ -1394,10 +1921,10 @@ func (g *wgen) messages() ([]wmsg, error) {
 // failures: code -> payload layout for every failure code of
 // makeEmptyOnionError whose payload the fragment expresses (no payload, or a
 // plain ReadElement/WriteX chain without extension data).
-func (g *wgen) failures(b, sym *strings.Builder) (ok []string, bad []string, err error) {
+func (g *wgen) failures(b, sym *strings.Builder, updOK bool) (ok []string, fds []string, bad []string, err error) {
 	fd, found := g.funcs["makeEmptyOnionError"]
 	if !found {
-		return nil, nil, fmt.Errorf("lnwire: makeEmptyOnionError not found")
+		return nil, nil, nil, fmt.Errorf("lnwire: makeEmptyOnionError not found")
 	}
 	var sw *ast.SwitchStmt
 	ast.Inspect(fd, func(n ast.Node) bool {
@@ -1407,7 +1934,7 @@ func (g *wgen) failures(b, sym *strings.Builder) (ok []string, bad []string, err
 		return sw == nil
 	})
 	if sw == nil {
-		return nil, nil, fmt.Errorf("lnwire: makeEmptyOnionError has no switch")
+		return nil, nil, nil, fmt.Errorf("lnwire: makeEmptyOnionError has no switch")
 	}
 	type fc struct {
 		code  uint64
@@ -1421,19 +1948,19 @@ func (g *wgen) failures(b, sym *strings.Builder) (ok []string, bad []string, err
 		}
 		ret, isRet := c.Body[0].(*ast.ReturnStmt)
 		if !isRet || len(ret.Results) != 2 {
-			return nil, nil, fmt.Errorf("lnwire: makeEmptyOnionError case %s", g.src(c.List[0]))
+			return nil, nil, nil, fmt.Errorf("lnwire: makeEmptyOnionError case %s", g.src(c.List[0]))
 		}
 		u, isU := ret.Results[0].(*ast.UnaryExpr)
 		if !isU {
-			return nil, nil, fmt.Errorf("lnwire: makeEmptyOnionError case %s: not &T{}", g.src(c.List[0]))
+			return nil, nil, nil, fmt.Errorf("lnwire: makeEmptyOnionError case %s: not &T{}", g.src(c.List[0]))
 		}
 		cl, isCl := u.X.(*ast.CompositeLit)
 		if !isCl {
-			return nil, nil, fmt.Errorf("lnwire: makeEmptyOnionError case %s: not &T{}", g.src(c.List[0]))
+			return nil, nil, nil, fmt.Errorf("lnwire: makeEmptyOnionError case %s: not &T{}", g.src(c.List[0]))
 		}
 		v, evok := g.evalConst(c.List[0], 0, 0)
 		if !evok {
-			return nil, nil, fmt.Errorf("lnwire: failure code %s not evaluable", g.src(c.List[0]))
+			return nil, nil, nil, fmt.Errorf("lnwire: failure code %s not evaluable", g.src(c.List[0]))
 		}
 		fcs = append(fcs, fc{v, g.src(cl.Type)})
 	}
@@ -1444,10 +1971,49 @@ func (g *wgen) failures(b, sym *strings.Builder) (ok []string, bad []string, err
 		if !hasD && !hasE {
 			fmt.Fprintf(b, "Definition fail_%s : layout := [].  (* code %d: no payload *)\n", f.sname, f.code)
 			ok = append(ok, fmt.Sprintf("(%d, fail_%s)", f.code, f.sname))
+			fds = append(fds, fmt.Sprintf("(%d, FDPlain fail_%s)", f.code, f.sname))
 			continue
 		}
 		reason := ""
 		var dec, enc *wside
+		if hasD && hasE {
+			df, ef, dOpt, eOpt, matched, uerr := g.updFailure(f.sname, dm, em)
+			if matched && uerr == nil && !updOK {
+				uerr = &unsup{"embeds a channel_update, but ChannelUpdate1 itself has no generated description"}
+			}
+			if matched && uerr != nil {
+				reason = f.sname + ": " + uerr.Error()
+				fmt.Fprintf(b, "(* unsupported failure: %s *)\n", strings.ReplaceAll(reason, "*)", "* )"))
+				bad = append(bad, fmt.Sprintf("(%d, %s)", f.code, coqString(reason)))
+				continue
+			}
+			if !matched {
+				de, ee, m2, eerr := g.eofFailure(f.sname, dm, em)
+				if m2 && eerr != nil {
+					reason = f.sname + ": " + eerr.Error()
+					fmt.Fprintf(b, "(* unsupported failure: %s *)\n", strings.ReplaceAll(reason, "*)", "* )"))
+					bad = append(bad, fmt.Sprintf("(%d, %s)", f.code, coqString(reason)))
+					continue
+				}
+				if m2 {
+					fmt.Fprintf(b, "Definition failenceof_%s : layout := %s.\n", f.sname, coqLayout(ee))
+					fmt.Fprintf(b, "Definition faileof_%s : layout := %s.  (* code %d, EOF-tolerant *)\n",
+						f.sname, coqLayout(de), f.code)
+					fmt.Fprintf(sym, "Example failencdec_%s : failenceof_%s = faileof_%s. Proof. reflexivity. Qed.\n",
+						f.sname, f.sname, f.sname)
+					fds = append(fds, fmt.Sprintf("(%d, FDEof faileof_%s)", f.code, f.sname))
+					continue
+				}
+			}
+			if matched {
+				fmt.Fprintf(b, "Definition failencupd_%s : updfail := %s.\n", f.sname, coqUpd(ef, eOpt))
+				fmt.Fprintf(b, "Definition failupd_%s : updfail := %s.  (* code %d *)\n", f.sname, coqUpd(df, dOpt), f.code)
+				fmt.Fprintf(sym, "Example failencdec_%s : failencupd_%s = failupd_%s. Proof. reflexivity. Qed.\n",
+					f.sname, f.sname, f.sname)
+				fds = append(fds, fmt.Sprintf("(%d, FDUpd failupd_%s)", f.code, f.sname))
+				continue
+			}
+		}
 		if !hasD || !hasE {
 			reason = "only one of Encode/Decode"
 		} else {
@@ -1474,9 +2040,222 @@ func (g *wgen) failures(b, sym *strings.Builder) (ok []string, bad []string, err
 		fmt.Fprintf(sym, "Example failencdec_%s : failenc_%s = fail_%s. Proof. reflexivity. Qed.\n",
 			f.sname, f.sname, f.sname)
 		ok = append(ok, fmt.Sprintf("(%d, fail_%s)", f.code, f.sname))
+		fds = append(fds, fmt.Sprintf("(%d, FDPlain fail_%s)", f.code, f.sname))
 	}
 	b.WriteString("\n")
-	return ok, bad, nil
+	return ok, fds, bad, nil
+}
+
+// the two helpers every channel_update-embedding failure goes through are part of the
+// translator's trusted vocabulary (MsgModel.decode_uf / encode_uf); they must still
+// contain the constructs the model mirrors.
+func (g *wgen) updHelpersOK() error {
+	want := map[string][]string{
+		"parseChannelUpdateCompatibilityMode": {"io.LimitReader(reader, int64(length))", "r.Peek(2)",
+			"typeInt == MsgChannelUpdate", "r.Read(throwAwayTypeBytes[:])", "return chanUpdate.Decode(r, pver)"},
+		"writeOnionErrorChanUpdate": {"WriteMessage(&b, chanUpdate, pver)", "WriteUint16(w, uint16(updateLen))",
+			"w.Write(b.Bytes())"},
+	}
+	for fn, subs := range want {
+		fd, ok := g.funcs[fn]
+		if !ok {
+			return &unsup{"helper " + fn + " not found"}
+		}
+		src := g.src(fd.Body)
+		for _, sub := range subs {
+			if !strings.Contains(src, sub) {
+				return g.bad(fd, "helper %s no longer contains `%s`", fn, sub)
+			}
+		}
+		if n := len(fd.Body.List); (fn == "writeOnionErrorChanUpdate" && n != 6) ||
+			(fn == "parseChannelUpdateCompatibilityMode" && n != 7) {
+			return g.bad(fd, "helper %s has %d statements: not the shape the model mirrors", fn, n)
+		}
+	}
+	return nil
+}
+
+// failure payload = fixed fields ++ u16 length ++ channel_update (see MsgModel.updfail):
+//
+//	Decode: ReadElement(r, &f.X)...; var length uint16; ReadElement(r, &length);
+//	        f.Update = ChannelUpdate1{}; return parseChannelUpdateCompatibilityMode(r, length, &f.Update, pver)
+//	   or   if length != 0 { f.Update = &ChannelUpdate1{}; return parse...(r, length, f.Update, pver) }; return nil
+//	Encode: WriteX(w, f.X)...; return writeOnionErrorChanUpdate(w, &f.Update, pver)
+//	   or   if f.Update != nil { return writeOnionErrorChanUpdate(w, f.Update, pver) }; return WriteUint16(w, 0)
+//
+// matched = false: the methods do not mention the helpers at all.
+func (g *wgen) updFailure(sname string, dm, em *ast.FuncDecl) (dec, enc []wfield, decOpt, encOpt, matched bool, err error) {
+	if !strings.Contains(g.src(dm.Body), "parseChannelUpdateCompatibilityMode") &&
+		!strings.Contains(g.src(em.Body), "writeOnionErrorChanUpdate") {
+		return nil, nil, false, false, false, nil
+	}
+	matched = true
+	if err = g.updHelpersOK(); err != nil {
+		return
+	}
+	if len(dm.Recv.List[0].Names) != 1 || len(em.Recv.List[0].Names) != 1 {
+		err = g.bad(dm, "receiver without a name")
+		return
+	}
+	recv := dm.Recv.List[0].Names[0].Name
+	d := &decState{g: g, recv: recv, sname: sname, side: &wside{optAt: -1},
+		locals: map[string]ast.Expr{}, zeroOf: map[string]string{}, zeroTy: map[string]ast.Expr{}}
+	stage := 0 // 0 fields, 1 length declared, 2 length read, 3 done
+	body := dm.Body.List
+	for i := 0; i < len(body); i++ {
+		st := body[i]
+		src := g.src(st)
+		if isErrCheck(st) {
+			continue
+		}
+		switch {
+		case stage == 0 && src == "var length uint16":
+			stage = 1
+		case stage == 1 && stmtCall(st) != nil && callName(stmtCall(st)) == "ReadElement" &&
+			len(stmtCall(st).Args) == 2 && g.src(stmtCall(st).Args[1]) == "&length":
+			stage = 2
+		case stage == 0 && stmtCall(st) != nil && (callName(stmtCall(st)) == "ReadElement" ||
+			callName(stmtCall(st)) == "ReadElements"):
+			if _, isRet := st.(*ast.ReturnStmt); isRet {
+				err = g.bad(st, "unsupported statement in Decode: %s", src)
+				return
+			}
+			if err = d.readArgs(st, stmtCall(st).Args[1:], &dec); err != nil {
+				return
+			}
+		case stage == 2 && src == recv+".Update = ChannelUpdate1{}" && i+2 == len(body) &&
+			g.src(body[i+1]) == "return parseChannelUpdateCompatibilityMode( r, length, &"+recv+".Update, pver, )":
+			stage, i = 3, i+1
+		case stage == 2 && i+2 == len(body) && g.src(body[i+1]) == "return nil" &&
+			src == "if length != 0 { "+recv+".Update = &ChannelUpdate1{} return parseChannelUpdateCompatibilityMode( r, length, "+recv+".Update, pver, ) }":
+			stage, decOpt, i = 3, true, i+1
+		default:
+			err = g.bad(st, "unsupported statement in Decode of a channel_update failure: %s", src)
+			return
+		}
+	}
+	if stage != 3 || d.extRead {
+		err = g.bad(dm, "Decode does not end in parseChannelUpdateCompatibilityMode")
+		return
+	}
+	erecv := em.Recv.List[0].Names[0].Name
+	e := &encState{g: g, recv: erecv, sname: sname, side: &wside{optAt: -1}}
+	ebody := em.Body.List
+	done := false
+	for i := 0; i < len(ebody); i++ {
+		st := ebody[i]
+		src := g.src(st)
+		if isErrCheck(st) {
+			continue
+		}
+		switch {
+		case i+1 == len(ebody) && src == "return writeOnionErrorChanUpdate(w, &"+erecv+".Update, pver)":
+			done = true
+		case i+2 == len(ebody) && g.src(ebody[i+1]) == "return WriteUint16(w, 0)" &&
+			src == "if "+erecv+".Update != nil { return writeOnionErrorChanUpdate(w, "+erecv+".Update, pver) }":
+			done, encOpt, i = true, true, i+1
+		default:
+			c := stmtCall(st)
+			_, isRet := st.(*ast.ReturnStmt)
+			if c == nil || isRet || !strings.HasPrefix(callName(c), "Write") {
+				err = g.bad(st, "unsupported statement in Encode of a channel_update failure: %s", src)
+				return
+			}
+			if err = e.write(st, c, &enc); err != nil {
+				return
+			}
+		}
+	}
+	if !done || e.done {
+		err = g.bad(em, "Encode does not end in writeOnionErrorChanUpdate")
+	}
+	return
+}
+
+// EOF-tolerant failure payload (MsgModel.decode_eof):
+//
+//	Decode: err := ReadElement(r, &f.X); switch { case err == io.EOF: return nil; case err != nil: return err } ...
+//	        return f.E.Decode(r)          (E an ExtraOpaqueData)
+//	Encode: WriteX(w, f.X) ...; return f.E.Encode(w)
+func (g *wgen) eofFailure(sname string, dm, em *ast.FuncDecl) (dec, enc []wfield, matched bool, err error) {
+	if !strings.Contains(g.src(dm.Body), "case err == io.EOF") {
+		return nil, nil, false, nil
+	}
+	matched = true
+	if len(dm.Recv.List[0].Names) != 1 || len(em.Recv.List[0].Names) != 1 {
+		return nil, nil, true, g.bad(dm, "receiver without a name")
+	}
+	recv := dm.Recv.List[0].Names[0].Name
+	d := &decState{g: g, recv: recv, sname: sname, side: &wside{optAt: -1},
+		locals: map[string]ast.Expr{}, zeroOf: map[string]string{}, zeroTy: map[string]ast.Expr{}}
+	const sw = "switch { case err == io.EOF: return nil case err != nil: return err }"
+	body := dm.Body.List
+	extOf := func(st ast.Stmt, meth, arg string) (string, bool) {
+		r, ok := st.(*ast.ReturnStmt)
+		if !ok || len(r.Results) != 1 {
+			return "", false
+		}
+		c, ok := r.Results[0].(*ast.CallExpr)
+		if !ok || len(c.Args) != 1 || g.src(c.Args[0]) != arg {
+			return "", false
+		}
+		sel, ok := c.Fun.(*ast.SelectorExpr)
+		if !ok || sel.Sel.Name != meth {
+			return "", false
+		}
+		f, ok := recvField(sel.X, recv)
+		ft, _ := g.structField(sname, f)
+		return f, ok && ft != nil && g.src(ft) == "ExtraOpaqueData"
+	}
+	for i := 0; i < len(body); i++ {
+		st := body[i]
+		if i == len(body)-1 {
+			f, ok := extOf(st, "Decode", "r")
+			if !ok {
+				return nil, nil, true, g.bad(st, "Decode does not end in `return f.<ExtraOpaqueData>.Decode(r)`")
+			}
+			dec = append(dec, wfield{f, "FRest"})
+			break
+		}
+		as, isAs := st.(*ast.AssignStmt)
+		c := stmtCall(st)
+		if !isAs || len(as.Lhs) != 1 || g.src(as.Lhs[0]) != "err" || c == nil || callName(c) != "ReadElement" ||
+			len(c.Args) != 2 || g.src(body[i+1]) != sw {
+			return nil, nil, true, g.bad(st, "unsupported statement in an EOF-tolerant Decode: %s", g.src(st))
+		}
+		if err := d.readArgs(st, c.Args[1:], &dec); err != nil {
+			return nil, nil, true, err
+		}
+		i++
+	}
+	recv = em.Recv.List[0].Names[0].Name
+	e := &encState{g: g, recv: recv, sname: sname, side: &wside{optAt: -1}}
+	for i, st := range em.Body.List {
+		if isErrCheck(st) {
+			continue
+		}
+		if i == len(em.Body.List)-1 {
+			f, ok := extOf(st, "Encode", "w")
+			if !ok {
+				return nil, nil, true, g.bad(st, "Encode does not end in `return f.<ExtraOpaqueData>.Encode(w)`")
+			}
+			enc = append(enc, wfield{f, "FRest"})
+			break
+		}
+		c := stmtCall(st)
+		_, isRet := st.(*ast.ReturnStmt)
+		if c == nil || isRet || !strings.HasPrefix(callName(c), "Write") {
+			return nil, nil, true, g.bad(st, "unsupported statement in Encode: %s", g.src(st))
+		}
+		if err := e.write(st, c, &enc); err != nil {
+			return nil, nil, true, err
+		}
+	}
+	return dec, enc, true, nil
+}
+
+func coqUpd(flds []wfield, opt bool) string {
+	return fmt.Sprintf("{| uf_pre := %s; uf_opt := %v |}", coqLayout(flds), opt)
 }
 
 func sameFields(a, b []wfield) bool {
@@ -1544,7 +2323,7 @@ func wireCore(repo string) (string, string, error) {
 	b.WriteString("From Coq Require Import List NArith Bool String.\n")
 	b.WriteString("From LV Require Import Wire.Model Wire.MsgModel.\n")
 	b.WriteString("Import ListNotations.\nLocal Open Scope N_scope.\nLocal Open Scope string_scope.\n\n")
-	var plain, tlvs, unsupp, names, meta []string
+	var plain, tlvs, opts, unsupp, names, meta []string
 	for _, m := range msgs {
 		names = append(names, fmt.Sprintf("(%s, %d)", coqString(m.sname), m.typ))
 		dec, derr := (*wside)(nil), error(nil)
@@ -1589,7 +2368,48 @@ func wireCore(repo string) (string, string, error) {
 					strings.ReplaceAll(f.codec, " ", "")))
 			}
 		}
+		if dec.tlv && (dec.optAt >= 0 || enc.optAt >= 0) {
+			// optional tail (ChannelReestablish)
+			reason := ""
+			switch {
+			case dec.optAt < 0 || enc.optAt < 0:
+				reason = "optional tail on one side of Encode/Decode only"
+			case dec.cond != nil || enc.cond != nil:
+				reason = "optional tail together with flag-conditional fields"
+			case fieldIndex(enc.flds[enc.optAt:], enc.optFld) < 0:
+				reason = "Encode decides on " + enc.optFld + " which is not a field of the tail"
+			case enc.flds[enc.optAt+fieldIndex(enc.flds[enc.optAt:], enc.optFld)].codec != "FPoint":
+				reason = "Encode decides on " + enc.optFld + " which is not a nil-able public key"
+			}
+			if reason != "" {
+				reason = m.sname + ": " + reason
+				fmt.Fprintf(&b, "(* unsupported: %s *)\n\n", reason)
+				unsupp = append(unsupp, fmt.Sprintf("(%d, %s)", m.typ, coqString(reason)))
+				continue
+			}
+			e2 := *enc
+			e2.excl = dec.excl
+			fmt.Fprintf(&b, "Definition encopt_%s : optmsg := %s.\n", m.sname, coqMsg(&e2, ""))
+			fmt.Fprintf(&b, "Definition opt_%s : optmsg := %s.\n\n", m.sname, coqMsg(dec, ""))
+			fmt.Fprintf(&sym, "Example encdec_%s : encopt_%s = opt_%s. Proof. reflexivity. Qed.\n",
+				m.sname, m.sname, m.sname)
+			opts = append(opts, fmt.Sprintf("(%d, opt_%s)", m.typ, m.sname))
+			var ofl []string
+			for i, f := range dec.flds {
+				pre := ""
+				if i >= dec.optAt {
+					pre = "!"
+				}
+				ofl = append(ofl, pre+f.name+":"+strings.ReplaceAll(f.codec, " ", ""))
+			}
+			meta = append(meta, fmt.Sprintf("(* @fields %d opt %s ext=%s %s *)", m.typ, dec.mode,
+				dec.extFld, strings.Join(ofl, " ")))
+			continue
+		}
 		if dec.tlv {
+			e2 := *enc
+			e2.excl = dec.excl // only Decode enforces the exclusion; Encode is compared without it
+			enc = &e2
 			fmt.Fprintf(&b, "Definition encmsg_%s : tlvmsg := %s.\n", m.sname, coqMsg(enc, ""))
 			// the known records of the Decode side carry no `always` flag: take it
 			// from the Encode side for the comparison (types and codecs must agree)
@@ -1626,6 +2446,12 @@ func wireCore(repo string) (string, string, error) {
 			dl = append(dl, wfield{dec.extFld, dec.term})
 			fl = append(fl, dec.extFld+":"+dec.term)
 		}
+		if dec.optAt >= 0 || enc.optAt >= 0 {
+			reason := m.sname + ": optional tail in a message without TLV parsing"
+			fmt.Fprintf(&b, "(* unsupported: %s *)\n\n", reason)
+			unsupp = append(unsupp, fmt.Sprintf("(%d, %s)", m.typ, coqString(reason)))
+			continue
+		}
 		if dec.cond != nil || enc.cond != nil {
 			reason := m.sname + ": conditional fields in a message without TLV parsing"
 			fmt.Fprintf(&b, "(* unsupported: %s *)\n\n", reason)
@@ -1648,14 +2474,26 @@ func wireCore(repo string) (string, string, error) {
 		fmt.Fprintf(&b, "Definition %s : %s := [\n  %s\n].\n\n", name, typ, strings.Join(items, ";\n  "))
 	}
 	// ---- onion failure codes (makeEmptyOnionError) ----
-	fails, unsuppF, err := g.failures(&b, &sym)
+	updOK := false
+	for _, t := range tlvs {
+		updOK = updOK || t == "(258, msg_ChannelUpdate1)"
+	}
+	fails, fdescs, unsuppF, err := g.failures(&b, &sym, updOK)
 	if err != nil {
 		return "", "", err
 	}
+	// the channel_update description the embedding failure codes refer to
+	if updOK {
+		b.WriteString("Definition gen_upd : tlvmsg := msg_ChannelUpdate1.\n\n")
+	} else {
+		b.WriteString("Definition gen_upd : tlvmsg := {| tm_pre := []; tm_cond := None; tm_known := []; tm_mode := Repack; tm_excl := [] |}.\n\n")
+	}
 	wr("gen_layouts", "msg_table", plain)
 	wr("gen_failures", "msg_table", fails)
+	wr("gen_fdescs", "ftable", fdescs)
 	wr("unsupported_failures", "list (N * string)", unsuppF)
 	wr("gen_tlvmsgs", "tmsg_table", tlvs)
+	wr("gen_optmsgs", "omsg_table", opts)
 	wr("msg_type_of", "list (string * N)", names)
 	wr("unsupported_messages", "list (N * string)", unsupp)
 	b.WriteString(strings.Join(meta, "\n") + "\n")
